@@ -2,6 +2,7 @@
 import collections
 import json
 import os
+import re
 import sys
 import time
 
@@ -28,64 +29,26 @@ NOT_APPLICABLE = {
 }
 HOOK_COMMITS = []
 
-PROPS = {
-    "C02": dict(
-        harness="det",
-        axioms=[],
-        uses_gen=True,
-        rule=("decision table of the property text (sample count around 63/64/last_index x suppression x keep_bit x "
-              "keep_last around 0/33/34/last-index boundary/4095 x requested_samples in {0,1,2,n+1,n+2,n+3,n+100}) with sample "
-              "fills incl. i16 extremes and negative sums not divisible by 64; short form with all flag/unused-bit "
-              "combinations; valid packets with one field changed (22 kinds), truncations/extensions, byte changes; "
-              "lengths 0..=120; random bytes. non-trivial = at least 16 bytes with type 1 and version 3; distinct = distinct bytes"),
-        trusted=MODELLED_DET + ["tools/gen.py translator (ALPHA16BOARDS, BASELINE_SAMPLES, MIN_KEEP_LAST regenerated into coq/Gen/Boards.v each run)"],
-        level_text=("Coq theorem adc_exact over a line-by-line model of AdcV3Packet::try_from (panic-aware, both overflow modes, any MAC "
-                    "table): accepted iff the field/consistency rules hold over Z and the bytes are the documented big-endian layout of "
-                    "the accessor values (up to the two unused footer bits); floor-mean lemma; never a panic; checked and wrapping "
-                    "builds agree. All byte lists, no bound."),
-        level_note=("trusted: Coq kernel; hand model tied by differential run (all 14 accessors incl. every waveform sample compared); "
-                    "board table and constants regenerated from source each run and re-checked by C02_consts_current; extraction; harness"),
-        note="model = spec by C02_adc_exact, so a difference is an input on which the implementation departs from the documented layout/rules",
-    ),
-    "C06": dict(
-        harness="det",
-        axioms=[],
-        uses_gen=False,
-        rule=("structured generator: boundary-biased valid TRG packets; per base packet every reserved bit set "
-              "individually, all 16 header/footer marks, low-28 agreements/disagreements, counter orderings/ties at "
-              "adjacent values, every word at 6 boundary values, bit flips, byte changes; lengths 0..=200; random "
-              "80-byte strings. non-trivial = input of length 80 (passes the first guard); distinct = distinct input bytes"),
-        trusted=MODELLED_DET,
-        level_text=("Coq theorems over a model of TrgV3Packet::try_from: accepted iff field ranges hold and the bytes equal the "
-                    "documented little-endian encoding of the fields (so reserved bits are zero and re-encoding reproduces the "
-                    "input), counters ordered, other lengths rejected, never a panic; for all byte lists, no bound. "
-                    "The model is tied to the Rust code by a differential run on every check."),
-        level_note=("trusted: Coq kernel; hand-written model (tie = differential run of /repo's decoder vs the extracted model on "
-                    "structured cases, all 18 accessors compared); extraction (ExtrOcamlBasic); harness and driver"),
-        note="model = spec by C06_trg_exact, so any observation difference between implementation and model is a "
-             "concrete input on which the implementation departs from the documented layout",
-    ),
-    "C07": dict(
-        harness="det",
-        axioms=[],
-        uses_gen=False,
-        rule=("all 256 top bytes x 6 low patterns and random words (classification); scaler-block length boundaries; "
-              "streams from the grammar (timestamps, markers, scaler blocks whose bodies imitate words/tags, invalid "
-              "words, truncated tails) parsed whole, under every single cut (sampled for long streams in quick), random "
-              "multi-cuts and the all-1-byte-pieces schedule, fed with the resume protocol. non-trivial = at least 4 "
-              "bytes; distinct = distinct (stream, cut pattern)"),
-        trusted=MODELLED_DET + ["winnow 0.6.1 combinators (separated_foldl1, repeat(0..), alt, seq!, le_u24, u8.verify.try_map, take, le_u32) "
-                                "on complete &[u8] input are modelled by the recursive parser Codec/Chrono.v:cb_fifo"],
-        level_text=("Coq theorems over a model of chronobox_fifo: symbolic classification of all 2^32 words; the consumed prefix "
-                    "is a sequence of words/complete scaler blocks whose entries are exactly the output, the remainder is the "
-                    "untouched suffix and starts with no complete element; parse(a++b) = parse(a) then parse(rem++b); by "
-                    "induction any cutting into pieces gives the same entries and final remainder; every element consumes 4 "
-                    "or 244 bytes. Unbounded streams, no fuel hypothesis left (fuel = length proved sufficient)."),
-        level_note=("trusted: Coq kernel; hand model of the winnow parser tied by differential runs (whole vs implementation, "
-                    "piecewise vs implementation, all five entry fields + remainder length compared); extraction; harness"),
-        note="entries and remainder length of implementation and proved model must agree, whole and piecewise",
-    ),
-}
+def load_props():
+    """tools/propcfg/Cxx.py each define CFG (one file per property, so that work on different
+    properties never touches the same file)"""
+    import importlib.util
+    out = {}
+    d = os.path.join(ROOT, "tools", "propcfg")
+    for f in sorted(os.listdir(d)):
+        if re.fullmatch(r"C\d+\.py", f):
+            spec = importlib.util.spec_from_file_location("propcfg_" + f[:-3], os.path.join(d, f))
+            m = importlib.util.module_from_spec(spec)
+            spec.loader.exec_module(m)
+            out[f[:-3]] = m.CFG
+    return out
+
+
+PROPS = load_props()
+
+
+def model_exe(cfg):
+    return vlib.build_modelrun(cfg.get("model", "det"), cfg.get("ocaml_pkgs", "zarith"), cfg.get("ocaml_flags", ""))
 
 
 def setup():
@@ -103,11 +66,17 @@ def setup():
             sys.stdout.write(out[-4000:])
             print("setup: coq build failed")
             return 1
-        exe, out = vlib.build_modelrun()
-        if exe is None:
-            sys.stdout.write(out[-4000:])
-            print("setup: modelrun build failed")
-            return 1
+        done = set()
+        for pid, cfg in PROPS.items():
+            unit = cfg.get("model", "det")
+            if unit in done:
+                continue
+            done.add(unit)
+            exe, out = model_exe(cfg)
+            if exe is None:
+                sys.stdout.write(out[-4000:])
+                print("setup: modelrun %s build failed" % unit)
+                return 1
         for h in sorted({p["harness"] for p in PROPS.values() if p.get("harness")}):
             exe, out = vlib.build_harness(h)
             if exe is None:
@@ -165,14 +134,14 @@ def run(pid, tier, seed):
             notes.append("translator: " + gerr)
         coq = vlib.coq_build_prop(pid, timeout=3000, allowed_axioms=cfg["axioms"])
         hyg = vlib.coq_hygiene()
-        model_exe, mout = vlib.build_modelrun()
+        m_exe, mout = model_exe(cfg)
         h_exe, hout = vlib.build_harness(cfg["harness"])
     if h_exe is None:
         # /repo no longer builds with the harness: not a property verdict, but the check cannot run
         sys.stdout.write(hout[-3000:])
         print("ERROR: harness does not build against /repo")
         return 2
-    if model_exe is None:
+    if m_exe is None:
         sys.stdout.write(mout[-3000:])
         print("ERROR: model runner does not build")
         return 2
@@ -195,7 +164,7 @@ def run(pid, tier, seed):
         meta = ["corpus 1"] * len(corpus) + meta
     with open(os.path.join(work, "all_cases.txt"), "w") as f:
         f.write("\n".join(cases) + "\n")
-    rc, out = sh("%s < %s > %s" % (model_exe, os.path.join(work, "all_cases.txt"), os.path.join(work, "model.txt")),
+    rc, out = sh("%s < %s > %s" % (m_exe, os.path.join(work, "all_cases.txt"), os.path.join(work, "model.txt")),
                  timeout=3000)
     model = read_lines(os.path.join(work, "model.txt"))
     if len(model) != len(cases) or len(impl) != len(cases):
@@ -284,11 +253,11 @@ def replay(path):
         print(json.dumps(rp, indent=1)[:3000])
         return 0
     with vlib.Lock("build"):
-        model_exe, _ = vlib.build_modelrun()
+        m_exe, _ = model_exe(cfg)
         h_exe, _ = vlib.build_harness(cfg["harness"])
     case = (rp["case"] + "\n").encode()
     _, i = sh([h_exe, "obs"], stdin=case)
-    _, m = sh([model_exe], stdin=case)
+    _, m = sh([m_exe], stdin=case)
     print("case:           ", rp["case"][:500])
     print("implementation: ", i.strip()[:500])
     print("model (= spec): ", m.strip()[:500])
